@@ -55,7 +55,7 @@ def build(field, s):
     langs = ["Python", "JavaScript"]
     for i, p in enumerate(paths):
         ms = [Measurement(g("unit_name", "fn") if (i == 0 and j == 0) else f"f{i}{j}", Location(INTS[j] + 1, 3), Location(INTS[j + 1] + 9, 2), [12, 45, 70][(i + j) % 3]) for j in range(nm)]
-        cb.add_file(SourceFileEntry(p, g("checksum", "0123abcd") if i == 0 else "ffff", g("language", langs[i]) if i == 0 else langs[i], sum(m.value for m in ms), ms))
+        cb.add_file(SourceFileEntry(p, g("checksum", "0123abcd") if (i == 0 or SHAPE.get("same_checksum")) else "ffff", g("language", langs[i]) if i == 0 else langs[i], sum(m.value for m in ms), ms))
     cb.aggregate()
     repo = GithubRepository(g("owner", "own"), g("name", "nam"), g("branch", "main")) if SHAPE["repo"] else None
     r = Report(cb, repo)
